@@ -76,11 +76,27 @@ var rePos = regexp.MustCompile(`^([^:\s]+\.yang):(\d+):(\d+):`)
 func loadOrders(body []byte) *core.Verdict {
 	var h struct {
 		Expect [][]string `json:"expect"`
+		Hist   []struct {
+			Op   string `json:"op"`
+			Text string `json:"text"`
+			Ok   bool   `json:"ok"`
+		} `json:"hist"`
 	}
 	if err := json.Unmarshal(body, &h); err != nil || len(h.Expect) == 0 {
 		return &core.Verdict{Infra: "session case"}
 	}
-	goods := h.Expect[len(h.Expect)-1]
+	// every text offered, the refused ones included (a source that fails to load is a source too); a text offered
+	// twice counts once
+	var goods []string
+	seenText := map[string]bool{}
+	for _, o := range h.Hist {
+		// (a well-formed text refused because its module name is taken is left out: which of two such texts wins
+		// does depend on the order, by the rule that the second one is rejected)
+		if o.Op == "load" && !seenText[o.Text] && (o.Ok || strings.HasPrefix(o.Text, "x-")) {
+			seenText[o.Text] = true
+			goods = append(goods, o.Text)
+		}
+	}
 	v := &core.Verdict{OK: true, Class: "load-order-of-texts", NT: len(goods) >= 2}
 	if len(goods) < 1 {
 		return v
@@ -93,9 +109,7 @@ func loadOrders(body []byte) *core.Verdict {
 	run := func(ids []string) string {
 		ms := yang.NewModules()
 		for _, id := range ids {
-			if err := session.LoadText(ms, id); err != nil {
-				return "load of " + id + " refused: " + err.Error()
-			}
+			session.LoadText(ms, id) // (a refused text is simply not part of the set)
 		}
 		return session.Dump(ms, ms.Process())
 	}
@@ -153,7 +167,7 @@ func loadOrders(body []byte) *core.Verdict {
 		ms := yang.NewModules()
 		ok := true
 		for _, id := range goods {
-			if err := session.LoadText(ms, id); err != nil {
+			if err := session.LoadText(ms, id); err != nil && !strings.HasPrefix(id, "x-") {
 				ok = false
 			}
 		}
